@@ -131,6 +131,7 @@ def run(shard, spec):
             dis[(ops, wrap)] = Disassembler(snap, _Cfg(True, False, ops, wrap))
     dis_dec = Disassembler(snap, _Cfg(False, False, '', 1))
     dis_low = Disassembler(snap, _Cfg(True, True, 'ALL', 1))
+    dis_low0 = Disassembler(snap, _Cfg(True, True, '', 1))
     tracer = sims.PortLog()
     simobjs = {}
     for kind in sims.KINDS:
@@ -299,8 +300,26 @@ def run(shard, spec):
                         if not ok:
                             viol('length: %s simulator advances PC by %s, disassembler says %d for %s' % (kind, sorted(adv), seqlen_known, bytes(b).hex()), b, fill, addr)
                 # timing table vs simulators (plain pair; contended pair at an uncontended T and address gives the same)
+                # the timing looked up for a statement does not depend on the case it is written in; a data statement (how an
+                # undefined sequence is rendered) has no timing at all
+                try:
+                    i_up = dis_dec.disassemble(addr, addr + 1, 'n')[0]
+                    i_low = dis_low0.disassemble(addr, addr + 1, 'n')[0]
+                    t_up, t_low = z80.get_timing(i_up), z80.get_timing(i_low)
+                    shard.inc('eval:get_timing_case')
+                    if t_up != t_low:
+                        viol('timing: get_timing gives %r for %r and %r for %r' % (t_up, i_up.operation, t_low, i_low.operation), b, fill, addr)
+                    if i_up.operation.startswith('DEF') and t_up is not None:
+                        viol('timing: get_timing gives %r for the data statement %r' % (t_up, i_up.operation), b, fill, addr)
+                except Exception as e:
+                    viol('z80.get_timing raised %s on the decimal/lower-case rendering of %s' % (type(e).__name__, bytes(b).hex()), b, fill, addr)
                 for ops, ins in timing_ins:
                     if ins.operation.upper().startswith('DEF'):
+                        try:
+                            if z80.get_timing(ins) is not None:
+                                viol('timing: get_timing gives a timing for the data statement %r' % ins.operation, b, fill, addr)
+                        except Exception as e:
+                            viol('z80.get_timing raised %s for %r' % (type(e).__name__, ins.operation), b, fill, addr)
                         continue
                     try:
                         tm = z80.get_timing(ins)
